@@ -157,7 +157,7 @@ impl<'s, 'o> Run<'s, 'o> {
                             inner.push((c, &mut *guard));
                             ended = self.scope(table, &mut inner, depth + 1);
                             drop(inner);
-                            drop(guard);
+                            drop_guard(guard, self.out.len() % 2 == 1);
                         }
                         guards.push((id, r));
                         if ended {
@@ -173,7 +173,7 @@ impl<'s, 'o> Run<'s, 'o> {
                             inner.push((c, &mut *guard));
                             ended = self.scope(table, &mut inner, depth + 1);
                             drop(inner);
-                            drop(guard);
+                            drop_guard(guard, self.out.len() % 2 == 1);
                         }
                         table[c] = Some(orig);
                         if ended {
@@ -310,6 +310,19 @@ impl<'s, 'o> Run<'s, 'o> {
             }
         }
         false
+    }
+}
+
+/// Ends a guard's scope either normally or by unwinding: a panic raised while the guard is alive and
+/// recovered by the caller (as the C API does around every call) must restore the borrowed context too.
+fn drop_guard<G>(guard: G, unwind: bool) {
+    if unwind {
+        let _ = std::panic::catch_unwind(std::panic::AssertUnwindSafe(move || {
+            let _alive = guard;
+            panic!("c08: guard scope left by unwinding");
+        }));
+    } else {
+        drop(guard);
     }
 }
 
